@@ -67,6 +67,8 @@ struct World {
     /// connections (`run_sender_with_config`: `weak_link_filter`, `link_cc_controller`); fresh per `init`
     weak_link_filter: srtla_core::selection::classifier::WeakLinkFilter,
     link_cc_controller: srtla_core::selection::link_cc::LinkCcController,
+    /// op `hkarm` (task B3): the REAL stats container the event loop publishes from (`shared_stats`); one per `init`
+    shared_stats: srtla_send::stats::SharedStats,
 }
 
 /// The address token of an uplink, read off its LABEL - the production format `<host>:<port> via <ip>` with
@@ -805,6 +807,7 @@ impl SysComp {
             removed_rx: Vec::new(),
             weak_link_filter: srtla_core::selection::classifier::WeakLinkFilter::new(),
             link_cc_controller: srtla_core::selection::link_cc::LinkCcController::new(),
+            shared_stats: srtla_send::stats::SharedStats::new(),
         });
         self.g = Ghost::default();
     }
@@ -922,6 +925,10 @@ impl Component for SysComp {
          handed to the shell by the REAL drain_packet_queue), with inert junk backlogs of 1 / 33..40 / 64..70 datagrams \
          (more than one recvmmsg batch, more than one drain budget), empty datagrams, receive-error sentinels and \
          relayable datagrams of 1499 / 1500 / 1501 / 2000 bytes. \
+         Op hkarm ends with the stats publish of the arm: the REAL SharedStats::update + get() with the arm's own \
+         arguments; the serde_json::Value of the snapshot (every field of every entry, floats as bits) is part of \
+         the compared line, and the snapshot is checked against the RAW link / classifier / controller state \
+         (stats-config-not-current, stats-link-misreported, stats-verdict-for-other-link). \
          Thorough tier: cases up to 450 steps. Non-trivial: registration completed and at least one datagram was put \
          on the wire."
     }
@@ -1459,7 +1466,18 @@ impl SysComp {
             conn.cc_target_bps = cc_snap.map(|s| s.target_bps).unwrap_or(0);
             conn.loss_degraded = cc_snap.map(|s| s.loss_degraded).unwrap_or(false);
         }
+        // (task B3) the stats publish of the arm: the REAL `SharedStats::update` + `get()`, same arguments
+        let stats_prev = w.shared_stats.get(); // (harness only: what a `get_stats` caller saw until now)
+        w.shared_stats.update(&w.links, &w.cfg, Some(&classification), Some(&link_cc_snapshots));
+        let stats_snap = w.shared_stats.get();
         verif_clock::set(None);
+        if stats_prev.total_links > 0 && (stats_prev.mode != stats_snap.mode || stats_prev.quality_enabled != stats_snap.quality_enabled) {
+            mon.count("hkarm-stats-config-change-reported");
+        }
+        if stats_prev.total_links > 0 && stats_prev.total_links != stats_snap.total_links {
+            mon.count("hkarm-stats-link-count-changed");
+        }
+        let stats_out = stats_tail(w, now, &classification, &link_cc_snapshots, &stats_snap, mon);
         // ---- monitors, from the property texts, on the raw connection state after the loop
         mon.count("hkarm");
         let total: f64 = w.links.iter().filter(|c| c.connected).map(|c| c.bitrate.current_bitrate_bps.max(0.0)).sum();
@@ -1526,12 +1544,13 @@ impl SysComp {
             .collect();
         let ccb: Vec<String> = w.links.iter().map(|c| show_bool(c.cc_backing_off).to_string()).collect();
         format!(
-            " | arm[sel={} est={} cls=[{}] cc=[{}] ccb=[{}]]",
+            " | arm[sel={} est={} cls=[{}] cc=[{}] ccb=[{}]]{}",
             classification.selected_delay_ms,
             classification.estimated_max_delay_ms,
             cls.join(";"),
             cc.join(";"),
-            ccb.join(",")
+            ccb.join(","),
+            stats_out
         )
     }
 }
@@ -1778,6 +1797,128 @@ impl SysComp {
             [(id, b)] => Some(format!("uplink {now} {id} {}", to_hex(b))),
             _ => None,
         }
+    }
+}
+
+// ------------------------------------------------------------------------------------------ op `hkarm`: stats publish
+
+/// Canonical text of the `serde_json::Value` of a `StatsSnapshot` (what the `stats` topic carries): object keys in
+/// increasing order, `k=v` joined by `,` inside `{}`; arrays `[a;b]`; booleans `1`/`0`; integers in decimal; floats as
+/// IEEE bits (`null` for a non-finite one: that is what serde_json makes of it); strings verbatim except `ip` /
+/// `label`, which are reduced to the address token of the uplink (the port in the label differs from run to run).
+fn canon_stats(key: &str, v: &serde_json::Value) -> String {
+    use serde_json::Value;
+    match v {
+        Value::Null => "null".to_string(),
+        Value::Bool(b) => show_bool(*b).to_string(),
+        Value::Number(n) => {
+            if let Some(u) = n.as_u64() {
+                u.to_string()
+            } else if let Some(i) = n.as_i64() {
+                i.to_string()
+            } else {
+                n.as_f64().map_or_else(|| "?".to_string(), |f| fb(f).to_string())
+            }
+        }
+        Value::String(s) => {
+            if key == "ip" || key == "label" {
+                let ip = s.rsplit_once(" via ").map_or(s.as_str(), |(_, ip)| ip);
+                match ip.parse::<Ipv4Addr>().map(|a| a.octets()) {
+                    Ok([127, 0, 1, a]) => a.to_string(),
+                    _ => format!("?{}", s.replace(' ', "_")),
+                }
+            } else {
+                s.replace(' ', "_")
+            }
+        }
+        Value::Array(a) => format!("[{}]", a.iter().map(|x| canon_stats(key, x)).collect::<Vec<_>>().join(";")),
+        Value::Object(m) => {
+            let mut keys: Vec<&String> = m.keys().collect();
+            keys.sort();
+            format!("{{{}}}", keys.iter().map(|k| format!("{k}={}", canon_stats(k, &m[k.as_str()]))).collect::<Vec<_>>().join(","))
+        }
+    }
+}
+
+/// `is_timed_out` re-stated from the property text against an EXPLICIT timeout (the configured one): a link that is
+/// not connected is timed out unless it never was established and its start-up grace still runs; a connected link is
+/// timed out once nothing was received for `cto` ms.
+fn timed_out_against(c: &SrtlaConnection, now: u64, cto: u64) -> bool {
+    if !c.connected {
+        !(c.reconnection.connection_established_ms == 0 && now < c.reconnection.startup_grace_deadline_ms)
+    } else {
+        c.last_received.is_some_and(|lr| now.saturating_sub(lr) >= cto)
+    }
+}
+
+/// Monitors on the published snapshot (RAW link / classifier / controller state against what the snapshot says,
+/// independent of the model) and the observation ` | stats{..}`.
+fn stats_tail(
+    w: &World,
+    now: u64,
+    classification: &srtla_core::selection::classifier::ClassificationResult,
+    cc: &HashMap<u64, srtla_core::selection::link_cc::LinkCcSnapshot>,
+    snap: &srtla_send::stats::StatsSnapshot,
+    mon: &mut Mon,
+) -> String {
+    mon.count("hkarm-stats");
+    // C18: the configuration block of the snapshot is the configuration in force
+    let classic = matches!(w.cfg.mode, SchedulingMode::Classic);
+    let want_mode = if classic { "classic" } else { "enhanced" };
+    if snap.mode != want_mode || snap.quality_enabled != (w.cfg.quality_enabled && !classic) {
+        mon.fail("C18", "stats-config-not-current", format!("tick {now}: configuration is mode={want_mode} quality_enabled={}, the published snapshot says mode={} quality_enabled={}", w.cfg.quality_enabled, snap.mode, snap.quality_enabled));
+    }
+    if classic { mon.count("hkarm-stats-classic"); }
+    if !w.cfg.quality_enabled { mon.count("hkarm-stats-quality-off"); }
+    if w.cfg.conn_timeout_ms != 5000 { mon.count("hkarm-stats-timeout-not-default"); }
+    let fail_link = |mon: &mut Mon, sig: &str, props: &[&str], desc: String| {
+        for p in props {
+            mon.fail(p, sig, desc.clone());
+        }
+    };
+    if snap.links.len() != w.links.len() || snap.total_links != w.links.len() {
+        fail_link(mon, "stats-link-misreported", &["C14", "C08", "C18", "C20"], format!("tick {now}: {} links, the snapshot has {} entries and total_links={}", w.links.len(), snap.links.len(), snap.total_links));
+    }
+    let mut active = 0usize;
+    let (mut tw, mut tif) = (0i64, 0i64);
+    for (i, c) in w.links.iter().enumerate() {
+        let Some(e) = snap.links.get(i) else { break };
+        let to = timed_out_against(c, now, w.cfg.conn_timeout_ms);
+        if c.connected && !to {
+            active += 1;
+            tw += c.window as i64;
+            tif += c.in_flight_packets as i64;
+        }
+        if to { mon.count("hkarm-stats-timed-out"); }
+        if c.connected && to { mon.count("hkarm-stats-connected-and-timed-out"); }
+        // C14 / C08: the entry at index i is link i's own state
+        if e.label != c.label || e.ip != c.local_ip || e.connected != c.connected || e.window != c.window || e.in_flight != c.in_flight_packets || e.nak_count != c.congestion.nak_count || e.timed_out != to {
+            fail_link(mon, "stats-link-misreported", &["C14", "C08", "C18", "C20"], format!("tick {now}: entry {i} of the snapshot says label={} connected={} window={} in_flight={} nak_count={} timed_out={}; link {} at index {i} has label={} connected={} window={} in_flight={} nak_count={} timed out against the configured {} ms: {to}", e.label, e.connected, e.window, e.in_flight, e.nak_count, e.timed_out, c.conn_id, c.label, c.connected, c.window, c.in_flight_packets, c.congestion.nak_count, w.cfg.conn_timeout_ms));
+        }
+        // C17 / C16: the verdict fields are those of THIS link's conn id - in the classification / the controller's
+        // map of this tick, and on the link itself (the stamping loop ran just before)
+        let ce = classification.per_link.iter().find(|x| x.conn_id == c.conn_id);
+        let weak = ce.is_some_and(|x| x.weak);
+        if e.weak != weak || e.weak != c.weak {
+            fail_link(mon, "stats-verdict-for-other-link", &["C17"], format!("tick {now}: entry {i} (link {}) reports weak={}, the classifier's verdict for that conn id is {weak}, the link is stamped {}", c.conn_id, e.weak, c.weak));
+        }
+        if e.weak { mon.count("hkarm-stats-weak-reported"); }
+        let cs = cc.get(&c.conn_id);
+        let (tgt, deg, st) = (cs.map_or(0, |s| s.target_bps), cs.is_some_and(|s| s.loss_degraded), cs.map_or("unknown", |s| s.state.as_str()));
+        if e.cc_target_bps != tgt || e.cc_target_bps != c.cc_target_bps || e.cc_loss_degraded != deg || e.cc_loss_degraded != c.loss_degraded || e.cc_state != st || (e.cc_state == "backing_off") != c.cc_backing_off {
+            fail_link(mon, "stats-verdict-for-other-link", &["C16"], format!("tick {now}: entry {i} (link {}) reports cc_target_bps={} cc_loss_degraded={} cc_state={}; the controller's entry for that conn id has {tgt} / {deg} / {st}, the link is stamped {} / {} / backing_off={}", c.conn_id, e.cc_target_bps, e.cc_loss_degraded, e.cc_state, c.cc_target_bps, c.loss_degraded, c.cc_backing_off));
+        }
+        if e.cc_target_bps != 0 { mon.count("hkarm-stats-target-reported"); }
+        if e.in_flight_cap_active { mon.count("hkarm-stats-cap-active"); }
+        if e.stall_gated { mon.count("hkarm-stats-latched"); }
+    }
+    if snap.links.len() == w.links.len() && (snap.active_links != active || snap.total_window as i64 != tw || snap.total_in_flight as i64 != tif) {
+        fail_link(mon, "stats-link-misreported", &["C14", "C08", "C18", "C20"], format!("tick {now}: aggregates active_links={} total_window={} total_in_flight={}, the links connected and live against the configured timeout give {active} / {tw} / {tif}", snap.active_links, snap.total_window, snap.total_in_flight));
+    }
+    if w.links.len() >= 2 && w.links.iter().enumerate().any(|(i, c)| c.conn_id != (i + 1) as u64) { mon.count("hkarm-stats-after-index-shift"); }
+    match serde_json::to_value(snap) {
+        Ok(v) => format!(" | stats{}", canon_stats("", &v)),
+        Err(e) => format!(" | stats-unserialisable:{}", e.to_string().replace(' ', "_")),
     }
 }
 
